@@ -77,6 +77,10 @@ pub struct Interpreter<TStdlib: Stdlib, TStdIn: Input, TStdOut: Printer, TLpt1: 
 
     last_error_address: Option<usize>,
 
+    /// While an error of a SUB / FUNCTION is being handled, the number of GOSUB addresses
+    /// that were pending when it was raised
+    go_subs_pending_at_error: usize,
+
     last_error_code: Option<i32>,
 
     print_state: PrintState,
@@ -218,6 +222,9 @@ impl<TStdlib: Stdlib, TStdIn: Input, TStdOut: Printer, TLpt1: Printer> Interpret
                             // store error address, so we can call RESUME and RESUME NEXT from within the error handler
                             self.context.push_error_handler_context();
                             self.last_error_address = Some(i);
+                            if !self.return_address_stack.is_empty() {
+                                self.go_subs_pending_at_error = self.go_sub_address_stack.len();
+                            }
                             i = handler_address;
                         }
                         ErrorHandler::Next => {
@@ -281,6 +288,7 @@ impl<TStdlib: Stdlib, TStdIn: Input, TStdOut: Printer, TLpt1: Printer>
             function_result: vec![],
             value_stack: vec![],
             last_error_address: None,
+            go_subs_pending_at_error: 0,
             last_error_code: None,
             print_state: PrintState::new(),
             data_segment: DataSegment::default(),
@@ -608,7 +616,10 @@ impl<TStdlib: Stdlib, TStdIn: Input, TStdOut: Printer, TLpt1: Printer>
             Some((_, _, _, pending_go_subs)) => *pending_go_subs,
             _ => 0,
         };
-        if self.go_sub_address_stack.len() > pending_in_callers {
+        // an error handler is module level code: while it handles an error of a
+        // SUB / FUNCTION, the addresses of that call are out of reach as well
+        let out_of_reach = pending_in_callers.max(self.go_subs_pending_at_error);
+        if self.go_sub_address_stack.len() > out_of_reach {
             self.go_sub_address_stack.pop()
         } else {
             None
@@ -676,6 +687,7 @@ impl<TStdlib: Stdlib, TStdIn: Input, TStdOut: Printer, TLpt1: Printer>
     /// Clears that address and also clears the most recent error code.
     fn take_last_error_address(&mut self) -> Result<usize, RuntimeError> {
         self.last_error_code = None;
+        self.go_subs_pending_at_error = 0;
         match self.last_error_address.take() {
             Some(a) => Ok(a),
             None => Err(RuntimeError::ResumeWithoutError),
